@@ -6,35 +6,54 @@ from hypothesis import strategies as st
 
 from vp.gen import c07_hier as H
 
+_EXT_POOLS = ((), (), (), ("object",), ("Exception",), ("abc.ABC",), ("Unk0",), ("Ext0",), ("Unk0", "Unk1"), ("Exception", "Ext0"), ("object", "Unk0"))
+
 
 @st.composite
-def pkg_cases(draw, max_classes: int = 7):
+def pkg_cases(draw, max_classes: int = 7, leaf_only_instance_attrs: bool = False):
     n = draw(st.integers(2, max_classes))
     nmods = draw(st.sampled_from((1, 2, 2, 3, 3, 3)))
     mods = sorted(draw(st.lists(st.integers(0, nmods - 1), min_size=n, max_size=n)))
-    # renumber so that module numbers are dense (m0..mk)
-    dense = {m: k for k, m in enumerate(sorted(set(mods)))}
-    mods = [dense[m] for m in mods]
     resolve = draw(st.sampled_from((True, True, True, False)))
     # externals available to this case (most cases: none or one, so that few classes fall outside the domain)
-    ext_pool = draw(st.sampled_from(((), (), (), ("object",), ("Exception",), ("abc.ABC",), ("Unk0",), ("Ext0",), ("Unk0", "Unk1"), ("Exception", "Ext0"), ("object", "Unk0"))))
+    ext_pool = draw(st.sampled_from(_EXT_POOLS))
     cyclic = draw(st.integers(0, 6)) == 0
+    # how classes become subscriptable: not at all / own __class_getitem__ / typing.Generic[T] as a base
+    gen_mode = draw(st.sampled_from(("", "", "cgi", "typing")))
+    # classes defined inside the next class
+    nest = [False] * n
+    if draw(st.integers(0, 1)):
+        nest = [draw(st.integers(0, 2)) == 0 for _ in range(n)]
+        nest[-1] = False
+    shell = {"bases": [[] for _ in range(n)], "nest": nest}
+    host = H.hosts(shell)
+    for j, h in enumerate(host):
+        if h is not None:
+            mods[j] = mods[h]  # a nested class lives in its host's module (blocks are contiguous: still non-decreasing)
+    dense = {m: k for k, m in enumerate(sorted(set(mods)))}
+    mods = [dense[m] for m in mods]
     # wildcard forms: only when the loader expands them, and never in a package whose imports are cyclic
     # (back-and-forth wildcard imports are a loader topic - C05/C06 -, not a class-hierarchy one)
     cross_forms = [f for f in H.FORMS_CROSS if f != "w" or (resolve and not cyclic)]
+    cgi = [gen_mode == "cgi" and draw(st.integers(0, 2)) == 0 for _ in range(n)]
     bases: list[list] = []
     via: list[list[str]] = []
     for i in range(n):
-        pool: list = list(range(i))
+        # a host cannot derive from the classes of its own body (they do not exist yet when its bases are evaluated)
+        pool: list = [j for j in range(i) if host[j] != i]
         # dense hierarchies: prefer 2-3 bases once they are available
         size = draw(st.sampled_from((0, 1, 1, 1, 2, 2, 2, 3))) if pool else 0
         size = min(size, len(pool))
         bs: list = draw(st.permutations(pool))[:size] if size else []
+        if gen_mode == "typing" and len(bs) < 3 and draw(st.integers(0, 2)) == 0:
+            # realistic placement is last; elsewhere CPython mostly rejects the order (then the class is not judged)
+            bs.insert(len(bs) if draw(st.integers(0, 3)) else draw(st.integers(0, len(bs))), "Generic[T]")
         if ext_pool and len(bs) < 3 and draw(st.integers(0, 3)) == 0:
             bs.insert(draw(st.integers(0, len(bs))), draw(st.sampled_from(ext_pool)))
         if cyclic and len(bs) < 3 and draw(st.integers(0, 2)) == 0:
             back = draw(st.integers(i, n - 1))
-            if back not in bs:
+            # never the class in whose body this one is defined: no statement order makes that valid Python
+            if back not in bs and back != host[i]:
                 bs.insert(draw(st.integers(0, len(bs))), back)
         forms = []
         for b in bs:
@@ -46,7 +65,32 @@ def pkg_cases(draw, max_classes: int = 7):
                 forms.append(draw(st.sampled_from(cross_forms)))
         bases.append(bs)
         via.append(forms)
+    # subscripted bases, where the target supports it
+    anc = H.ancestors(bases)
+    sub: list[list[bool]] = []
+    for i in range(n):
+        row = []
+        for b in bases[i]:
+            ok = False
+            if isinstance(b, int):
+                if gen_mode == "cgi":
+                    ok = cgi[b] or any(cgi[a] for a in anc[b])
+                elif gen_mode == "typing":
+                    ok = "Generic[T]" in bases[b]
+            row.append(bool(ok and draw(st.integers(0, 2))))
+        sub.append(row)
     # one fixed-size draw (uniform bits; st.integers would be heavily skewed towards 0 = no members at all)
-    nbytes = (3 * len(H.NAMES) * n + 7) // 8
-    members = H.members_from_bits(int.from_bytes(draw(st.binary(min_size=nbytes, max_size=nbytes)), "little"), n)
-    return {"kind": "pkg", "bases": bases, "members": members, "mods": mods, "via": via, "resolve": resolve}
+    members = H.members_from_bits(int.from_bytes(draw(st.binary(min_size=2 * n, max_size=2 * n)), "little"), n)
+    ibits = int.from_bytes(draw(st.binary(min_size=n, max_size=n)), "little")  # 5 of 8 bits per class used
+    spread = sum(((ibits >> (8 * i)) & 31) << (5 * i) for i in range(n))
+    init = H.init_from_bits(spread, members, bases, leaf_only=leaf_only_instance_attrs)
+    case = {"kind": "pkg", "bases": bases, "members": members, "mods": mods, "via": via, "resolve": resolve, "init": init}
+    if any(nest):
+        case["nest"] = nest
+    if any(cgi):
+        case["cgi"] = cgi
+    if any(any(r) for r in sub):
+        case["sub"] = sub
+    if leaf_only_instance_attrs and init != H.init_from_bits(spread, members, bases, leaf_only=False):
+        case["ia_steered"] = True
+    return case
